@@ -25,7 +25,7 @@ from qce_circuit.structure.registry_acquisition import (
 )
 
 
-@dataclass(frozen=False, unsafe_hash=True)
+@dataclass(frozen=False, eq=False)
 class SingleQubitOperation(ICircuitOperation):
     """
     Minimal operation describes single-qubit implementation of ICircuitOperation.
@@ -106,7 +106,7 @@ class SingleQubitOperation(ICircuitOperation):
     # endregion
 
 
-@dataclass(frozen=False, unsafe_hash=True)
+@dataclass(frozen=False, eq=False)
 class Reset(SingleQubitOperation, ICircuitOperation):
     """
     Reset operation covers all qubit channels.
@@ -136,7 +136,7 @@ class Reset(SingleQubitOperation, ICircuitOperation):
     # endregion
 
 
-@dataclass(frozen=False, unsafe_hash=True)
+@dataclass(frozen=False, eq=False)
 class Wait(SingleQubitOperation, ICircuitOperation):
     """
     Wait (delay) operation.
@@ -170,7 +170,7 @@ class Wait(SingleQubitOperation, ICircuitOperation):
     # endregion
 
 
-@dataclass(frozen=False, unsafe_hash=True)
+@dataclass(frozen=False, eq=False)
 class Identity(SingleQubitOperation, ICircuitOperation):
     """
     Identity operation.
@@ -200,7 +200,7 @@ class Identity(SingleQubitOperation, ICircuitOperation):
     # endregion
 
 
-@dataclass(frozen=False, unsafe_hash=True)
+@dataclass(frozen=False, eq=False)
 class Hadamard(SingleQubitOperation, ICircuitOperation):
     """
     Hadamard operation.
@@ -230,7 +230,7 @@ class Hadamard(SingleQubitOperation, ICircuitOperation):
     # endregion
 
 
-@dataclass(frozen=False, unsafe_hash=True)
+@dataclass(frozen=False, eq=False)
 class Rx180(SingleQubitOperation, ICircuitOperation):
     """
     Rotation-X (180 degrees) operation.
@@ -260,7 +260,7 @@ class Rx180(SingleQubitOperation, ICircuitOperation):
     # endregion
 
 
-@dataclass(frozen=False, unsafe_hash=True)
+@dataclass(frozen=False, eq=False)
 class Rx90(SingleQubitOperation, ICircuitOperation):
     """
     Rotation-X (90 degrees) operation.
@@ -290,7 +290,7 @@ class Rx90(SingleQubitOperation, ICircuitOperation):
     # endregion
 
 
-@dataclass(frozen=False, unsafe_hash=True)
+@dataclass(frozen=False, eq=False)
 class Rxm90(SingleQubitOperation, ICircuitOperation):
     """
     Rotation-X (-90 degrees) operation.
@@ -320,7 +320,7 @@ class Rxm90(SingleQubitOperation, ICircuitOperation):
     # endregion
 
 
-@dataclass(frozen=False, unsafe_hash=True)
+@dataclass(frozen=False, eq=False)
 class Ry180(SingleQubitOperation, ICircuitOperation):
     """
     Rotation-Y (180 degrees) operation.
@@ -350,7 +350,7 @@ class Ry180(SingleQubitOperation, ICircuitOperation):
     # endregion
 
 
-@dataclass(frozen=False, unsafe_hash=True)
+@dataclass(frozen=False, eq=False)
 class Ry90(SingleQubitOperation, ICircuitOperation):
     """
     Rotation-Y (90 degrees) operation.
@@ -380,7 +380,7 @@ class Ry90(SingleQubitOperation, ICircuitOperation):
     # endregion
 
 
-@dataclass(frozen=False, unsafe_hash=True)
+@dataclass(frozen=False, eq=False)
 class Rym90(SingleQubitOperation, ICircuitOperation):
     """
     Rotation-Y (-90 degrees) operation.
@@ -410,7 +410,7 @@ class Rym90(SingleQubitOperation, ICircuitOperation):
     # endregion
 
 
-@dataclass(frozen=False, unsafe_hash=True)
+@dataclass(frozen=False, eq=False)
 class Rx180ef(SingleQubitOperation, ICircuitOperation):
     """
     Rotation-X (180 degrees) operation between excited (e) and second-excited (f) state.
@@ -440,7 +440,7 @@ class Rx180ef(SingleQubitOperation, ICircuitOperation):
     # endregion
 
 
-@dataclass(frozen=False, unsafe_hash=True)
+@dataclass(frozen=False, eq=False)
 class VirtualPhase(SingleQubitOperation, ICircuitOperation):
     """
     Virtual (Z) phase rotation operation.
@@ -470,7 +470,7 @@ class VirtualPhase(SingleQubitOperation, ICircuitOperation):
     # endregion
 
 
-@dataclass(frozen=False, unsafe_hash=True)
+@dataclass(frozen=False, eq=False)
 class VirtualPark(SingleQubitOperation, ICircuitOperation):
     """
     Virtual park operation.
@@ -501,7 +501,7 @@ class VirtualPark(SingleQubitOperation, ICircuitOperation):
     # endregion
 
 
-@dataclass(frozen=False, unsafe_hash=True)
+@dataclass(frozen=False, eq=False)
 class Rphi90(SingleQubitOperation, ICircuitOperation):
     """
     Rotation- [Xcos(phi) + Ysin(phi)] (90 degrees) operation.
@@ -531,7 +531,7 @@ class Rphi90(SingleQubitOperation, ICircuitOperation):
     # endregion
 
 
-@dataclass(frozen=False, unsafe_hash=True)
+@dataclass(frozen=False, eq=False)
 class TwoQubitOperation(ICircuitOperation):
     """
     Minimal operation describes two-qubit implementation of ICircuitOperation.
@@ -615,7 +615,7 @@ class TwoQubitOperation(ICircuitOperation):
     # endregion
 
 
-@dataclass(frozen=False, unsafe_hash=True)
+@dataclass(frozen=False, eq=False)
 class CPhase(TwoQubitOperation, ICircuitOperation):
     """
     Control-Phase operation.
@@ -649,7 +649,7 @@ class CPhase(TwoQubitOperation, ICircuitOperation):
     # endregion
 
 
-@dataclass(frozen=False, unsafe_hash=True)
+@dataclass(frozen=False, eq=False)
 class TwoQubitVirtualPhase(TwoQubitOperation, ICircuitOperation):
     """
     Virtual (Z) phase rotation operation.
@@ -681,7 +681,7 @@ class TwoQubitVirtualPhase(TwoQubitOperation, ICircuitOperation):
     # endregion
 
 
-@dataclass(frozen=False, unsafe_hash=True)
+@dataclass(frozen=False, eq=False)
 class DispersiveMeasure(IAcquisitionOperation):
     """
     Dispersive measure operation.
@@ -883,7 +883,7 @@ class Barrier(ICircuitOperation):
     # endregion
 
 
-@dataclass(frozen=False, unsafe_hash=True)
+@dataclass(frozen=False, eq=False)
 class VirtualVacant(SingleQubitOperation, ICircuitOperation):
     """
     Virtual vacant operation (behaves as Wait).
@@ -916,7 +916,7 @@ class VirtualVacant(SingleQubitOperation, ICircuitOperation):
     # endregion
 
 
-@dataclass(frozen=False, unsafe_hash=True)
+@dataclass(frozen=False, eq=False)
 class VirtualTwoQubitVacant(TwoQubitOperation, ICircuitOperation):
     """
     Virtual vacant operation (behaves as TwoQubitOperation).
@@ -951,7 +951,7 @@ class VirtualTwoQubitVacant(TwoQubitOperation, ICircuitOperation):
     # endregion
 
 
-@dataclass(frozen=False, unsafe_hash=True)
+@dataclass(frozen=False, eq=False)
 class VirtualEmpty(SingleQubitOperation, ICircuitOperation):
     """
     Virtual empty position (behaves as Wait).
